@@ -241,6 +241,17 @@ def _coincidence_templates():
         for d in reversed(range(n)):
             txt += ("V%d v_%d = 2\n" % (d + 1, d + 1) if d < n - 1 else "") + "}\n"
         t.append(txt)
+    # long chains of *references* (not of nesting): every definition refers to the previous one
+    for n in (100, 318, 400):
+        # array alias of array alias ...: beyond ~320 links Array.nbits/Alias.nbits exceed the
+        # recursion limit during parsing (listed as an open known finding), slightly below that
+        # the schema is accepted and the renderers' recursion is the deeper one
+        t.append("type AC0 = uint8[2]\n" + "".join("type AC%d = AC%d[1]\n" % (k, k - 1) for k in range(1, n + 1)) + "message UsesAC {\n    AC%d x = 1\n}" % n)
+    t.append("message MC0 {\n    uint8 x = 1\n}\n" + "".join("message MC%d {\n    MC%d x = 1\n}\n" % (k, k - 1) for k in range(1, 600)))
+    t.append("message AMC0 {\n    uint8 x = 1\n}\n" + "".join("message AMC%d {\n    AMC%d[1] x = 1\n}\n" % (k, k - 1) for k in range(1, 300)))
+    t.append("const CC0 = 1\n" + "".join("const CC%d = CC%d + 1\n" % (k, k - 1) for k in range(1, 1500)) + "message UsesCC {\n    byte[CC1499] b = 1\n}")
+    t.append("const PAREN = " + "(" * 1200 + "1" + ")" * 1200)
+    t.append("const SUM = " + " + ".join(["1"] * 5000))
     t.append("message SameLineA {\n    bool x = 1\n} message SameLineB {\n    bool y = 1\n}")
     t.append("message OneLine { bool z = 1; uint3 w = 2; }")
     t.append("message OneLine2 { bool z = 1; } enum OneLineE : uint1 { OLE_A = 0; OLE_B = 1; } type OneLineT = uint3; const ONELINE = 1;")
